@@ -127,6 +127,7 @@ def candidates(rng, t, opts, st, depth):
         if not (snap_only and no_completion):
             A((1, ['scan', 'acc_append_mut', 'list_factory', mut_red(), None]))
             A((1, ['scan', 'acc_append_mut', 'list', mut_red(), None]))
+            A((1, ['scan', 'acc_nested_mut', 'nested', mut_red(), None]))
         A((1, ['scan', 'acc_digest', 'zero', red(), None]))
         if not no_completion:
             A((1, ['scan', 'acc_append_new', 'list', rng.random() < 0.5, 'term_mark']))
